@@ -428,7 +428,7 @@ fn check_pca(out: &mut Out, x: &Rows, k: usize, use_corr: bool, aux_seed: u64, f
         out.count("excluded:cond>1e8");
         return;
     }
-    let tol = 256.0 * (n + p) as f64 * EPS * cond;
+    let tol = 32.0 * (n + p) as f64 * EPS * cond;
     let distinct_shape = n >= 3 && p >= 2 && k >= 1;
     out.eval(hash_f64s(&key), distinct_shape);
 
@@ -598,7 +598,7 @@ fn check_tsvd(out: &mut Out, x: &Rows, k: usize, aux_seed: u64, fam: &str, stat:
         return;
     }
     out.eval(hash_f64s(&key), n >= 2 && p >= 2 && k >= 1);
-    let tol = 256.0 * (n + p) as f64 * EPS;
+    let tol = 32.0 * (n + p) as f64 * EPS;
     let svd = match tsvd_fit(x, k) {
         Err(msg) => {
             out.fail("tsvd_fit_total", &format!("panic: {}", msg), input);
@@ -870,12 +870,13 @@ fn main() {
     corr_pca(&mut out, &mut rng, &usa_wide, 3, false, true);
 
     // ---- correspondence ----
-    let ncorr = if a.thorough { 160 } else { 40 };
+    let ncorr = if a.thorough { 240 } else { 80 };
     for i in 0..ncorr {
         let p = 1 + (i % 5) + if a.thorough && i % 7 == 0 { 2 } else { 0 };
         let n = match i % 4 {
-            0 => rng.usize_in(2, p.max(2)), // n <= p (or n = 2)
+            0 => p.max(2),                  // n = p: the boundary of the path choice
             1 => p + 1,
+            2 => rng.usize_in(2, p.max(2)), // n <= p (or n = 2)
             _ => rng.usize_in(p + 1, p + 6),
         };
         let fam = match i % 6 {
@@ -909,7 +910,7 @@ fn main() {
     }
 
     // ---- search ----
-    let nsearch = if a.thorough { 4000 } else { 500 };
+    let nsearch = if a.thorough { 8000 } else { 1500 };
     for i in 0..nsearch {
         let p = rng.usize_in(1, 8);
         let n = match i % 5 {
